@@ -93,6 +93,69 @@ func runC16(w *World, r *Report) {
 	} else {
 		r.Undecided("C16-R6", "CheckKeyNotExist", 0, "anchor not found")
 	}
+	// R7: sibling agreement of the division operands in average(): every `/` and `%` of two values that a dominating
+	// comparison orders has the greater one as its dividend (ceil(larger/smaller) needs quotient AND remainder of the
+	// same pair). Silent on divisions whose operands no dominating comparison orders (e.g. a rewrite through
+	// larger/smaller locals): the numeric clause itself stays not decided.
+	r.Rule("C16-R7", "division operands agree with the ordering test", "util.average: every quotient / remainder of two values ordered by a dominating comparison divides the greater by the smaller (quotient and remainder of one branch use the same pair)", 0)
+	if av := w.Func(pkgUtil, "", "average"); av != nil {
+		nDiv := 0
+		for _, g := range familyOf(av).Funcs {
+			eachInstr(g, func(in ssa.Instruction) {
+				bo, ok := in.(*ssa.BinOp)
+				if !ok || (bo.Op != token.QUO && bo.Op != token.REM) {
+					return
+				}
+				// walk up the dominator tree looking for an edge that orders bo.X and bo.Y
+				verdict := 0 // +1: X is the greater (or equal) on every path reaching the operation, -1: Y is
+				for b := bo.Block(); b.Idom() != nil && verdict == 0; b = b.Idom() {
+					cond, t, f, isIf := ifSuccs(b.Idom())
+					if !isIf {
+						continue
+					}
+					cmp, isCmp := cond.(*ssa.BinOp)
+					if !isCmp {
+						continue
+					}
+					onTrue := len(t.Preds) == 1 && t.Dominates(bo.Block())
+					onFalse := len(f.Preds) == 1 && f.Dominates(bo.Block())
+					if onTrue == onFalse {
+						continue
+					}
+					xGreater := 0 // when the comparison is true
+					switch {
+					case cmp.X == bo.X && cmp.Y == bo.Y:
+						xGreater = 1
+					case cmp.X == bo.Y && cmp.Y == bo.X:
+						xGreater = -1
+					default:
+						continue
+					}
+					switch cmp.Op {
+					case token.GTR, token.GEQ:
+					case token.LSS, token.LEQ:
+						xGreater = -xGreater
+					default:
+						continue
+					}
+					if onFalse {
+						xGreater = -xGreater
+					}
+					verdict = xGreater
+				}
+				if verdict == 0 {
+					return
+				}
+				nDiv++
+				r.Check(verdict > 0, "C16-R7", fmt.Sprintf("average | %s #%d divides the greater by the smaller", bo.Op, nDiv), bo.Pos(), "dividend is the side the dominating comparison makes the greater", "the dividend of this "+bo.Op.String()+" is the SMALLER of the two counts on this branch (operands crossed against the sibling operation of the branch): the remainder test / quotient no longer computes ceil(larger/smaller), so the per-channel quota is wrong when the counts divide evenly or not at all")
+			})
+		}
+		if nDiv == 0 {
+			r.Info("C16-R7", "average | no division of two values ordered by a dominating comparison", av.Pos(), "the rule gives no verdict on this implementation of the quota")
+		}
+	} else {
+		r.Undecided("C16-R7", "average", 0, "anchor not found")
+	}
 	r.Rule("C16-R4", "assignments are append-only", "ChannelMapping's maps are written only in AddKeyValue/NewChannelMapping; no delete() or reassignment of channelHandlerMap / sourcePChannelKeyMap / ChannelMapping maps anywhere", 4)
 
 	mgr := w.Named(pkgReader, "replicateChannelManager")
